@@ -80,6 +80,26 @@ claim("C02", "CFG dominance/must-pass + sibling agreement of the three read loop
       "Not covered: the lost-edge race of the gate under all schedules, kernel ET/ONESHOT semantics, CPU usage at quiescence, datagram boundaries, the configuration matrix as executions.",
       "DESIGN.md §4 C02")
 
+claim("C06", "loop-carried-value (phi) inventory + CFG exit classification + carry-block shape + who-may-write over go/ssa",
+      "Decides the mechanism segmentation independence rests on, not the equivalence itself: Parse resumes by prepending the carried bytes, so a cut can only matter through per-call local state, the carry/rebase code, or an exit that skips the carry. Decided: the only values carried from one byte to the next are the index, the token start and the data slice (everything else lives in Parser fields); the loop starts at the carried length with token start 0 and the carry block stores exactly data[start:] when something is left, keeps the buffer when start==0 and releases it when nothing is left; the only success returns are the empty-input guard, the upgrade hand-off and the return behind the carry block, and body states leave the loop only on their not-enough-bytes edge into the carry block; only Parse writes the carry buffer.",
+      "Not covered: equality of the event sequences over all (message, cut) pairs; the per-state token logic (start = i versus i+1 is value-level); ReadLimit.",
+      "DESIGN.md §4 C06")
+
+claim("C07", "constant/table agreement against net/http's own source (AST of GOROOT's httpguts and net/http) + decision-table extraction over go/ssa",
+      "Agreement with net/http as a whole is differential and not decided; four clauses are table / decision agreement and are decided against net/http's source as loaded for this build (never linked or run): the token alphabets of nbhttp and of the WebSocket handshake parser equal httpguts.isTokenTable on all 256 bytes; chunk sizes are parsed with radix 16 and Content-Length with radix 10, bit size <= 63; chunked framing removes Content-Length, trailers are parsed only when chunked, and the trailer names Transfer-Encoding / Trailer / Content-Length are rejected; the connection-persistence decision of ServerProcessor.OnComplete equals net/http's shouldClose over its whole finite domain.",
+      "Not covered: header multimap, body bytes, trailer values (the trailer-value state cuts a value at its first space; no rule here decides values), message boundaries.",
+      "DESIGN.md §4 C07")
+
+claim("C10", "closure-body effect sequences + CFG must-pass/pairing + lockset + sibling switch agreement over go/ssa",
+      "Ordering, exactly-once and isolation over histories rest on C05, C09 and C11; decided here is the glue specific to HTTP exchanges: the job handed to the connection's executor for each request is handler-then-flush and nothing else, and on the !ok edge the request is released and no handler runs; flushResponse closes on the Close edge only after the flush, immediately on a flush error, renews the keep-alive deadline otherwise, and releases request and response exactly once on every path; the client appends its handler under the mutex before the request is written, pops index 0 under the mutex, and on close invokes every pending handler and clears the list in the same critical section; the TLS and non-TLS listener dispatch have the same IOMod case set and hand each listener to the add-function of the matching kind.",
+      "Not covered: everything quantified over histories / concurrency; net/http interoperability.",
+      "DESIGN.md §4 C10")
+
+claim("C20", "per-path last-store analysis + interval facts + ownership typestate inside the allocators + who-may-call over go/ssa",
+      "Content preservation and non-aliasing over all operation sequences are value-level and not decided. Decided: every return of each of the three Malloc implementations yields a slice whose last store on every path is make([]byte,size) or x[:size] (nil only for size<0); inside the allocators a block is read before it is released and never used, returned or released afterwards, and Append/Realloc copy the old contents to offset 0 and the new bytes to offset len(old); a pooling Free puts back only buffers of positive capacity within its bound; the pooled allocator grows a pooled buffer by size-cap on the cap<size edge before [:size]; the aligned allocator indexes its class table only for sizes inside the table and each class allocates at least the size recorded for it; sync.Pool.Put only in the two Free methods and no allocator stores a handed-out buffer into a field, global or map. One genuine defect found and repaired (zero-capacity buffer pooled by AlignedAllocator.Free).",
+      "Not covered: content preservation and non-overlap for all sequences and sizes; that every capacity filed under an aligned class is a class size (foreign buffers with cap a multiple of 32 but not a power of two are filed under a larger class); concurrent use (delegated to sync.Pool); the TraceDebugger wrapper.",
+      "DESIGN.md §4 C20")
+
 PENDING = "check not built yet in this round (static rule tables are being added property by property; see DESIGN.md §4 for the planned obligations)"
 for pid in ["C%02d" % i for i in range(1, 21)]:
     if pid not in PROPS:
